@@ -92,7 +92,23 @@ static int spawn_mode;                 /* 0: exec ok (EOF on the error pipe), el
 static int kres[MAXC]; static int kst[MAXC]; /* per child: 0 running, 1 exited(status kst), 2 ECHILD */
 static int reaped[MAXC];
 static int blocking_reaped;
-static pid_t fk_fork(void) { return next_pid++; }
+static int cur_id;
+static int fork_errno;                 /* != 0: the next fork() fails with it */
+static int cap_n, cap[1024][2];        /* the pipes[] table uv_spawn handed to the child side, captured at fork() */
+static pid_t fk_fork_capture(int stdio_count, int (*pp)[2]) {
+  int i;
+  cap_n = stdio_count < 1024 ? stdio_count : 1024;
+  for (i = 0; i < cap_n; i++) { cap[i][0] = pp[i][0]; cap[i][1] = pp[i][1]; }
+  if (fork_errno) { errno = fork_errno; fork_errno = 0; return -1; }
+  return 1000 + cur_id;      /* pid encodes the harness's child index */
+}
+/* dirty heap: every block libuv allocates is filled with a chosen byte */
+static int fill_byte = 0xA5;
+static void* d_malloc(size_t n) { void* p = malloc(n); if (p) memset(p, fill_byte, n); return p; }
+static void* d_realloc(void* p, size_t n) { return realloc(p, n); }
+static void* d_calloc(size_t a, size_t b) { return calloc(a, b); }
+static void d_free(void* p) { free(p); }
+static int count_fds(void) { int n = 0, fd; for (fd = 0; fd < 1024; fd++) if ((fcntl)(fd, F_GETFD) != -1) n++; return n; }
 static ssize_t fk_read(int fd, void* buf, size_t n) {
   (void) fd;
   if (spawn_mode == 0) return 0;
@@ -123,7 +139,7 @@ static pid_t fk_waitpid(pid_t pid, int* st, int opt) {
 #define setgid fk_setgid
 #define setuid fk_setuid
 #define sigprocmask fk_sigprocmask
-#define fork fk_fork
+#define fork() fk_fork_capture(stdio_count, pipes)   /* locals of uv__spawn_and_init_child_fork */
 #define read fk_read
 #define waitpid fk_waitpid
 #define uv__close fk_uv_close
@@ -194,16 +210,47 @@ static void tracked(void) {
   }
   putchar('\n');
 }
-static void do_spawn(int err) {
-  uv_process_options_t opt; char* args[2] = { "prog", NULL }; int rc, id = nprocs;
+static uv_pipe_t upipes[64];
+/* err: errno the fake child reports through the error pipe; ferr: errno of a failing fork(); slots: stdio layout or NULL */
+static void do_spawn(int err, int ferr, char** slots, int nslots) {
+  uv_process_options_t opt; char* args[2] = { "prog", NULL }; int rc, id = nprocs, i, np = 0, fds0, fds1;
+  uv_stdio_container_t* sc = NULL; sigset_t m0, m1;
   uv_process_t* p = calloc(1, sizeof *p);
   if (id >= MAXC) { puts("bad-op"); return; }
   memset(&opt, 0, sizeof opt); opt.file = "prog"; opt.args = args; opt.exit_cb = exit_cb;
+  if (slots) {
+    sc = calloc(nslots ? nslots : 1, sizeof *sc);
+    for (i = 0; i < nslots; i++) {
+      if (slots[i][0] == 'i') sc[i].flags = UV_IGNORE;
+      else if (slots[i][0] == 'f') { sc[i].flags = UV_INHERIT_FD; sc[i].data.fd = atoi(slots[i] + 1); }
+      else if (slots[i][0] == 'p' && np < 64) {
+        uv_pipe_init(&loop, &upipes[np], 0);
+        sc[i].flags = UV_CREATE_PIPE | UV_READABLE_PIPE | UV_WRITABLE_PIPE; sc[i].data.stream = (uv_stream_t*) &upipes[np++];
+      } else { puts("bad-op"); free(sc); free(p); return; }
+    }
+    opt.stdio = sc; opt.stdio_count = nslots;
+  }
   p->data = (void*) (intptr_t) id; procs[nprocs++] = p;
-  spawn_mode = err; blocking_reaped = 0;
+  cur_id = id; spawn_mode = err; fork_errno = ferr; blocking_reaped = 0; cap_n = -1;
+  pthread_sigmask(SIG_SETMASK, NULL, &m0); fds0 = count_fds();
   rc = uv_spawn(&loop, p, &opt);
-  if (rc == 0) printf("ret 0 active %d\n", uv_is_active((uv_handle_t*) p));
-  else printf("ret %d active %d reaped %d\n", rc, uv_is_active((uv_handle_t*) p), blocking_reaped);
+  pthread_sigmask(SIG_SETMASK, NULL, &m1); fds1 = count_fds();
+  if (slots) {
+    fputs("pipes", stdout);
+    for (i = 0; i < cap_n; i++) {
+      if (i < nslots && slots[i][0] == 'p' && cap[i][1] >= 0 && cap[i][0] >= 0 && cap[i][0] != cap[i][1]) fputs(" p", stdout);
+      else printf(" %d", cap[i][1]);
+    }
+    putchar('\n');
+  }
+  if (rc == 0) printf("ret 0 active %d", uv_is_active((uv_handle_t*) p));
+  else printf("ret %d active %d reaped %d", rc, uv_is_active((uv_handle_t*) p), blocking_reaped);
+  for (i = 1; i < 65; i++) if (sigismember(&m0, i) != sigismember(&m1, i)) { printf(" MASK-CHANGED(sig %d)", i); break; }
+  if (np == 0 && fds0 != fds1) printf(" FD-LEAK(%d->%d)", fds0, fds1);
+  putchar('\n');
+  for (i = 0; i < np; i++) uv_close((uv_handle_t*) &upipes[i], NULL);
+  if (np) uv_run(&loop, UV_RUN_NOWAIT);
+  free(sc);
   tracked();
 }
 
@@ -215,6 +262,7 @@ int main(int argc, char** argv) {
     return 0;
   }
   if (strcmp(argv[1], "wait")) return 2;
+  uv_replace_allocator(d_malloc, d_realloc, d_calloc, d_free);
   uv_loop_init(&loop);
   while (fgets(line, sizeof line, stdin)) {
     char* w = strtok(line, " \n");
@@ -226,8 +274,15 @@ int main(int argc, char** argv) {
       for (int i = 0; i < nprocs; i++) free(procs[i]);
       nprocs = 0; next_pid = 1000; memset(kres, 0, sizeof kres); memset(reaped, 0, sizeof reaped);
       tracked();
-    } else if (!strcmp(w, "spawn")) do_spawn(0);
-    else if (!strcmp(w, "spawnfail")) { char* e = strtok(NULL, " \n"); do_spawn(e ? atoi(e) : ENOENT); }
+    } else if (!strcmp(w, "spawn")) do_spawn(0, 0, NULL, 0);
+    else if (!strcmp(w, "spawnfail")) { char* e = strtok(NULL, " \n"); do_spawn(e ? atoi(e) : ENOENT, 0, NULL, 0); }
+    else if (!strcmp(w, "forkfail")) { char* e = strtok(NULL, " \n"); do_spawn(0, e ? atoi(e) : EAGAIN, NULL, 0); }
+    else if (!strcmp(w, "fill")) { char* e = strtok(NULL, " \n"); fill_byte = e ? atoi(e) : 0xA5; }
+    else if (!strcmp(w, "spawnl")) {
+      char* sl[256]; int n = 0; char* e;
+      while ((e = strtok(NULL, " \n")) != NULL && n < 256) sl[n++] = e;
+      do_spawn(0, 0, sl, n);
+    }
     else if (!strcmp(w, "close")) {
       char* e = strtok(NULL, " \n"); int id = e ? atoi(e) : -1;
       if (id < 0 || id >= nprocs || uv_is_closing((uv_handle_t*) procs[id])) puts("bad-op");
